@@ -23,9 +23,9 @@ MUTANTS = {
  "c04_abs_slip_ratio": (["C04"], C,
    "    slip_rates[i_min] = ratio_min * np.abs(ratio_min) ** (deformation_exponent - 1)\n",
    "    slip_rates[i_min] = np.abs(ratio_min) ** deformation_exponent\n"),
- "c04_schmid_transposed": (["C04"], C,
+ "c04_schmid_columns": (["C04"], C,
    "                + slip_rates[2] * orientation[2, i] * orientation[1, j]\n",
-   "                + slip_rates[2] * orientation[2, j] * orientation[1, i]\n"),
+   "                + slip_rates[2] * orientation[i, 2] * orientation[j, 1]\n"),
  "c04_scale_by_diag": (["C04"], M,
    "            strain_rate_max = np.abs(la.eigvalsh(strain_rate)).max()\n",
    "            strain_rate_max = max(np.abs(np.diag(strain_rate)).max(), 0.3 * np.abs(la.eigvalsh(strain_rate)).max())\n"),
@@ -52,9 +52,6 @@ MUTANTS = {
  "c07_unsupported_returns_zeros": (["C07"], C,
    "    elif regime == DeformationRegime.sliding_dislocation:\n        raise ValueError(\"this deformation mechanism is not yet supported.\")\n",
    "    elif regime == DeformationRegime.sliding_dislocation:\n        return np.zeros((n_grains, 3, 3)), np.zeros(n_grains)\n"),
- "c07_fractions_appended_first": (["C07"], M,
-   "        deformation_gradient, orientations, fractions = _utils.extract_vars(\n            solver.y.squeeze(), self.n_grains\n        )\n        self.orientations.append(orientations)\n        self.fractions.append(fractions)\n",
-   "        self.fractions.append(self.fractions[-1])\n        deformation_gradient, orientations, fractions = _utils.extract_vars(\n            solver.y.squeeze(), self.n_grains\n        )\n        self.orientations.append(orientations)\n        self.fractions[-1] = fractions\n"),
  "c08_fraction_by_ordinal": (["C08"], M,
    "                volume_fraction = params[\"phase_fractions\"][\n                    params[\"phase_assemblage\"].index(self.phase)\n                ]\n",
    "                volume_fraction = params[\"phase_fractions\"][\n                    min(int(self.phase), len(params[\"phase_fractions\"]) - 1)\n                ]\n"),
@@ -74,9 +71,6 @@ MUTANTS = {
  "c09_reference_initial": (["C09"], M,
    "                params[\"gbs_threshold\"],\n                self.orientations[-1],\n",
    "                params[\"gbs_threshold\"],\n                self.orientations[0],\n"),
- "c09_no_renormalise": (["C09", "C01"], U,
-   "    fractions[mask] = gbs_threshold / n_grains\n    fractions /= fractions.sum()\n",
-   "    fractions[mask] = gbs_threshold / n_grains\n"),
  "c09_mask_le": (["C09"], U,
    "    mask = fractions < (gbs_threshold / n_grains)\n", "    mask = fractions <= (gbs_threshold / n_grains)\n"),
  "c14_imap_unordered": (["C14"], D,
